@@ -900,7 +900,14 @@ impl<'ctx> ByteCompiler<'ctx> {
                     let index = self.get_or_insert_string(name);
                     self.bytecode.emit_throw_mutate_immutable(index.into());
                 }
-                Err(BindingLocatorError::Silent) => {}
+                Err(BindingLocatorError::Silent) => {
+                    // An immutable binding of sloppy code (the name of a function expression)
+                    // assigned from strict code: a TypeError.
+                    if self.strict() {
+                        let index = self.get_or_insert_string(name);
+                        self.bytecode.emit_throw_mutate_immutable(index.into());
+                    }
+                }
             },
         }
     }
@@ -1639,7 +1646,14 @@ impl<'ctx> ByteCompiler<'ctx> {
                             let index = self.get_or_insert_string(name);
                             self.bytecode.emit_throw_mutate_immutable(index.into());
                         }
-                        Err(BindingLocatorError::Silent) => {}
+                        Err(BindingLocatorError::Silent) => {
+                            // An immutable binding of sloppy code (the name of a function expression)
+                            // assigned from strict code: a TypeError.
+                            if self.strict() {
+                                let index = self.get_or_insert_string(name);
+                                self.bytecode.emit_throw_mutate_immutable(index.into());
+                            }
+                        }
                     }
                 } else {
                     self.emit_binding_access(BindingAccessOpcode::SetNameByLocator, &index, value);
